@@ -433,6 +433,13 @@ def judge_and_report(chk, results):
             raise MachineryError("trace rejected as malformed (%s): %s" % (v, json.dumps(describe(t))[:800]))
         elif c == "build:exception" and not t.get("gen"):
             chk.skip("corpus designspace does not build (%s)" % t["err"])
+        elif c == "build:exception" and len(t["srcs"]) < 2:
+            # a designspace with one master has nothing to reproduce across masters: outside the property's domain.
+            # (varLib.build raises IndexError in cff.merge_PrivateDicts for a single CFF master; reported, not judged here)
+            chk.skip("single-master designspace does not build (%s)" % t["err"])
+        elif c == "build:exception":
+            chk.reject("build:exception:%s" % t["err"], "varLib.build raised %s (%s) on the valid designspace %s"
+                       % (t["err"], t.get("errmsg", ""), t["src"]), replay_of(t))
         else:
             item = v[1] if len(v) > 1 else ""
             kind = item.split(":")[0] if isinstance(item, str) else ""
